@@ -78,7 +78,7 @@ def job_solver(job):
         mode = op.get("mode", "solve")
         emit({"e": "Call", "d": op["d"], "prune": prune, "mode": mode, "obj": op.get("obj", "new")})
         try:
-            if mode == "reach":
+            if mode in ("reach", "cond"):
                 # public API only: the way the repository's own tests drive it
                 sg = tad.StochasticGame(prune_states=prune, **desc)
                 sg.check_game()
@@ -88,6 +88,12 @@ def job_solver(job):
                 emit({"e": "ReachDone",
                       "prob": obs.nums([s.reach_probability for s in state_list]),
                       "rstrat": obs.strats(rs)})
+                if mode == "cond":
+                    # conditioning through the public Solver API, no reward phase
+                    solver.prune_reachability(rs)
+                    if prune:
+                        solver.prune_stochastich_game()
+                    emit({"e": "Conditioned", "nodes": obs.nodes(state_list)})
                 emit({"e": "End"})
                 continue
             key = op.get("obj", "new")
